@@ -82,6 +82,20 @@ CLAIMED = {
             'interval length <= 5 (6), <= 3 (4) provided candles, <= 5 adds; provided candles sorted by time; an older unknown candle may '
             'be rejected as long as the store is unchanged',
             TECH),
+    'C17': ('DESIGN.md C17',
+            'Bounded solver-based check: the real sizing/rounding helpers executed on proxies - exact reals for the algebraic clauses '
+            '(cost incl. fees, risk, one step below the quotient, acceptance by a fresh exchange, stop limiting, decimal helper bodies), a '
+            'sound relaxation of binary64 (each op exact*(1+d), |d|<=2^-53) proving no overspend for fee>=1e-5, max_timeframe on a symbolic '
+            'set; binary64-exact witnesses of two known 1-ulp findings are replayed each run and searched with QF_FP (cvc5) in the thorough tier.',
+            'capital/price in [1e-6,1e6], fee in {0} U [1e-5,0.01], precision 0..8; binary64 claims only for size_to_qty (relaxed model) and the '
+            'stored/searched witnesses; Decimal(str(x)) taken as the exact value of x',
+            TECH + '; QF_FP witness search (cvc5) in the thorough tier'),
+    'C19': ('DESIGN.md C19',
+            'Bounded solver-based check: dna_to_hp/convert_number on symbolic genes (ordinals 40..119) with symbolic real bounds and on every '
+            'letter with symbolic integer bounds; range, type, own-gene dependence, monotonicity, endpoints by z3; alphabet default compared; '
+            'injection precedence through the real _prepare_routes/_init_objects with symbolic values.',
+            'floats as reals (round-half-even over reals); DNAs of 1-3 genes; int parameters with integer bounds',
+            TECH),
 }
 
 NOT_YET = {}
